@@ -232,9 +232,27 @@ class Gen:
             if self.r.random() < 0.25:
                 return ("block", [("while", self.cond(), ("block", ss))])
             return ("block", ss)
-        body = [("if", self.cond(), wrap(th or [("s", ";")]), wrap(el) if el else None)]
+        # one branch that does nothing (the identity is NOT neutral for the sum of the two branches)
+        noop = lambda: self.r.choice([[("s", ";")], [], [("s", f"{vs[0]} = {vs[0]};")], [("s", "break;")]])
+        k = self.r.random()
+        if k < 0.2 and el:
+            th = noop()
+        elif k < 0.3 and th:
+            el = noop()
+        body = [("if", self.cond(), wrap(th or [("s", ";")]) if th else ("block", []), wrap(el) if el else None)]
         if self.r.random() < 0.3:
             body.append(self.simple_nosite())
+        if self.r.random() < 0.25 and len(vs) >= 3 and self.sites < self.c.max_sites:
+            # a flow that only ONE branch kills: `a = b . b; if (c) <nothing> else a = d; b = a;` -- the cycle b -> a -> b exists
+            # because the old value of a may survive the conditional
+            a, b, d = vs[0], vs[1], vs[2]
+            self.sites += 1
+            kill = [("s", f"{a} = {d};")]
+            keep = noop()
+            t_, e_ = (keep, kill) if self.r.random() < 0.5 else (kill, keep)
+            body = [("s", f"{a} = {b} {self.r.choice(['*', '+'])} {self.r.choice([b, d])};"),
+                    ("if", self.cond(), ("block", t_), ("block", e_) if (e_ or self.r.random() < 0.5) else None),
+                    ("s", f"{b} = {a};")]
         if self.r.random() < 0.6:
             self.fresh += 1
             it, guard = f"i{self.fresh}", f"n{self.fresh}"
